@@ -199,7 +199,10 @@ def run(ctx):
                 "the object while holding the object's lock (R02.1 on the binder)")
     r6.necessary_for = "`o[k] = v` with a key computed from `o` would abort instead of assigning"
     r6.inst("binder functions analysed: %d" % len(binders))
-    return [rule_R12_1(ctx), rule_R12_2(ctx), r3, r4, r5, r6, rule_R12_7(ctx)]
+    import c16
+    r8 = c16.rule_R16_8(ctx, "R12.8")
+    r8.title = ("property names are computed by evaluating the name expression (no answer from its syntax alone)")
+    return [rule_R12_1(ctx), rule_R12_2(ctx), r3, r4, r5, r6, rule_R12_7(ctx), r8]
 
 
 META = {
